@@ -420,9 +420,11 @@ func (c *Client) Initialize(ctx context.Context, initReq *InitializeRequest) (*I
 
 	// Try to establish GET SSE connection if transport supports it
 	if t, ok := c.transport.(*streamableHTTPClientTransport); ok {
-		// Start GET SSE connection asynchronously to avoid blocking.
+		// The GET SSE connection itself is made in a goroutine started by establishGetSSE, so this
+		// does not block; the stream is registered (with its cancel func) before Initialize returns,
+		// so that a Close right after Initialize stops it instead of leaving it open for good.
 		// Pass the context so GET SSE can inherit context values.
-		go t.establishGetSSEConnection(ctx)
+		t.establishGetSSEConnection(ctx)
 	}
 
 	return initResult, nil
